@@ -57,6 +57,31 @@ def c01_search(with_bombs=True):
                     return n, f"raise: metabolize({expr[:40]!r}, pathway={pathway}, silent={silent}) raised {type(e).__name__}", seen
                 if expr in FORBIDDEN and r.success and r.pathway in (MetabolicPathway.GLYCOLYSIS, MetabolicPathway.KREBS_CYCLE, MetabolicPathway.OXIDATIVE):
                     return n, f"confinement: forbidden construct {expr!r} evaluated successfully to {r.atp.value!r} (pathway={pathway})", seen
+    # a successful result is a VALUE: no piece of the syntax tree, code object, module, function or class may come back
+    import ast as _ast, types as _types
+
+    def leak(v, depth=0):
+        if isinstance(v, (_ast.AST, _types.CodeType, _types.ModuleType, _types.FunctionType, _types.BuiltinFunctionType, type)):
+            return type(v).__name__
+        if depth < 4 and isinstance(v, (list, tuple, set, frozenset)):
+            for x in v:
+                w = leak(x, depth + 1)
+                if w:
+                    return w
+        if depth < 4 and isinstance(v, dict):
+            for k_, x in v.items():
+                w = leak(k_, depth + 1) or leak(x, depth + 1)
+                if w:
+                    return w
+        return None
+    for expr in ("[1, 2]", "(1, 2)", "[1, [2, 3]]", "max([1, 2])", "1 if 2 else 3", "[1 + 1, 2 * 3]", "(1 < 2, 'a')", "-(3)", "not 0", "1 < 2 < 3", "abs(-2)",
+                 "round(2.5, ndigits=0)", "[]", "()", "[True and 1]", "'a' + 'b'", "2 ** 3", "pi", "sqrt(4)"):
+        for pathway in (None, MetabolicPathway.GLYCOLYSIS, MetabolicPathway.KREBS_CYCLE):
+            n += 1
+            with contextlib.redirect_stdout(io.StringIO()):
+                r = Mitochondria(silent=True).metabolize(expr, pathway)
+            if r.success and leak(r.atp.value):
+                return n, f"confinement: metabolize({expr!r}, pathway={pathway}) returned a {leak(r.atp.value)} object inside its value ({r.atp.value!r}): not a computed value", seen
     if ran:
         return n, "a tool body ran for an expression that does not name it", seen
     if with_bombs:
@@ -108,14 +133,57 @@ def gen_exprs(depth):
     return list(dict.fromkeys(out))
 
 
-def c02_search(depth=2):
+def rand_expr(rnd, d):
+    """a random expression of the allowed subset, nesting depth <= d (exponents and factorial arguments stay atoms: no cost bombs)"""
+    atoms = ["1", "0", "2", "3", "2.5", "-3", "0.1", "True", "False", "'a'", "''", "'ab'", "pi", "e"]
+    if d <= 0 or rnd.random() < 0.15:
+        return rnd.choice(atoms)
+    sub = lambda: rand_expr(rnd, d - 1)
+    k = rnd.randrange(16)
+    if k == 0:
+        return f"({sub()}) {rnd.choice(['+', '-', '*', '/', '//', '%'])} ({sub()})"
+    if k == 1:
+        return f"({sub()}) ** {rnd.choice(['0', '1', '2', '3', '0.5', '-1'])}"
+    if k == 2:
+        return f"({sub()}) {rnd.choice(['==', '!=', '<', '<=', '>', '>='])} ({sub()})"
+    if k == 3:
+        return f"({sub()}) {rnd.choice(['<', '<=', '==', '>'])} ({sub()}) {rnd.choice(['<', '!=', '>='])} ({sub()})"
+    if k == 4:
+        return f"({sub()}) {rnd.choice(['and', 'or'])} ({sub()})"
+    if k == 5:
+        return f"({sub()}) and ({sub()}) or ({sub()})"
+    if k == 6:
+        return f"{rnd.choice(['not ', '-', '+'])}({sub()})"
+    if k == 7:
+        return f"({sub()}) if ({sub()}) else ({sub()})"
+    if k == 8:
+        return f"{rnd.choice(['abs', 'int', 'float', 'bool', 'round', 'floor', 'ceil', 'trunc', 'sqrt', 'len'])}({sub()})"
+    if k == 9:
+        return f"{rnd.choice(['max', 'min', 'pow', 'round', 'gcd', 'atan2'])}({sub()}, {sub()})"
+    if k == 10:
+        return f"{rnd.choice(['sum', 'max', 'min', 'len'])}([{sub()}, {sub()}])"
+    if k == 11:
+        return f"[{sub()}, {sub()}]"
+    if k == 12:
+        return f"({sub()}, {sub()})"
+    if k == 13:
+        return f"round({sub()}, ndigits={rnd.choice(['0', '1', '2'])})"
+    if k == 14:
+        return f"factorial({rnd.choice(['0', '1', '3', '5', '-1', '2.5'])})"
+    return f"max([{sub()}], default={sub()})"
+
+
+def c02_search(depth=2, n_random=0, seed=0):
     from operon_ai.organelles.mitochondria import Mitochondria, MetabolicPathway
     known = known_classes("C02")
     seen = {}
     names = dict(Mitochondria.SAFE_FUNCTIONS)
     n = 0
     m = Mitochondria(silent=True, max_ros=10 ** 9)
-    for expr in gen_exprs(depth):
+    import random as _random
+    rnd = _random.Random(seed)
+    exprs = gen_exprs(depth) + [rand_expr(rnd, depth + 1) for _ in range(n_random)]
+    for expr in exprs:
         n += 1
         try:
             tree = ast.parse(expr, mode="eval")
@@ -159,8 +227,10 @@ if __name__ == "__main__":
         bound = f"{len(FORBIDDEN)} forbidden constructs + {len(HOSTILE)} hostile strings x 5 pathways x silent/non-silent; 4 cost bombs in a supervised child (4 s)"
     else:
         depth = int(sys.argv[2]) if len(sys.argv) > 2 else 2
-        n, bad, seen = c02_search(depth)
-        bound = f"grammar-directed expressions to depth {depth} + corner-case corpus, on the math/logic/auto pathways, vs restricted CPython eval"
+        n_random = int(sys.argv[3]) if len(sys.argv) > 3 else 300
+        n, bad, seen = c02_search(depth, n_random, int(os.environ.get("VERIF_SEED", "0") or 0))
+        bound = (f"grammar-directed expressions to depth {depth} + corner-case corpus + {n_random} random expressions of the allowed subset (nesting <= {depth + 1}), "
+                 f"on the math/logic/auto pathways, vs restricted CPython eval")
     out = {"status": "ok" if bad is None else "violation", "bound": bound, "cases": n, "known_findings": list(seen.values())}
     if bad:
         out["detail"] = bad
